@@ -141,6 +141,10 @@ impl CacheStrategy {
 
 // ---------------------------------------------------------------- L1b query cache
 pub open spec fn qc_empty() -> Map<int, Set<u64>> { Map::empty() }
+/// `a` is a sub-map of `b` (same as Map::submap_of, but with a single trigger so that it chains)
+pub open spec fn map_le<K, V>(a: Map<K, V>, b: Map<K, V>) -> bool {
+    forall|k: K| #[trigger] a.contains_key(k) ==> b.contains_key(k) && a[k] == b[k]
+}
 #[verifier::external_body]
 pub struct QueryHashCache { _p: core::marker::PhantomData<()> }
 impl QueryHashCache {
@@ -149,11 +153,11 @@ impl QueryHashCache {
     pub open spec fn refs(&self, d: u64) -> bool { exists|k: int| #[trigger] self@.contains_key(k) && self@[k].contains(d) }
     #[verifier::external_body] pub fn clear(&mut self) ensures final(self)@ == qc_empty() { unimplemented!() }
     #[verifier::external_body] pub fn invalidate_doc(&mut self, d: u64) -> (r: usize)
-        ensures final(self)@.submap_of(old(self)@), !final(self).refs(d),
+        ensures map_le(final(self)@, old(self)@), !final(self).refs(d),
             forall|x: u64| #[trigger] final(self).refs(x) ==> old(self).refs(x),
             forall|k: int| #[trigger] old(self)@.contains_key(k) && !old(self)@[k].contains(d) ==> final(self)@.contains_key(k) { unimplemented!() }
     #[verifier::external_body] pub fn invalidate_for_insert(&mut self, e: &[f32], m: DistanceMetric) -> (r: usize)
-        ensures final(self)@.submap_of(old(self)@), forall|x: u64| #[trigger] final(self).refs(x) ==> old(self).refs(x) { unimplemented!() }
+        ensures map_le(final(self)@, old(self)@), forall|x: u64| #[trigger] final(self).refs(x) ==> old(self).refs(x) { unimplemented!() }
 }
 
 // ---------------------------------------------------------------- hot tier (recent-write mirror)
@@ -215,7 +219,7 @@ impl HnswBackend {
             forall|i: int| 0 <= i < ds@.len() && (#[trigger] r@[i]).is_some() ==> r@[i].unwrap().0@ == self@[ds@[i]].0 && r@[i].unwrap().1@ == self@[ds@[i]].1
                 && spec_digest(r@[i].unwrap().0@) == self@[ds@[i]].2.digest { unimplemented!() }
     #[verifier::external_body] pub fn ids_for_metadata_filter(&self, f: &MetadataFilter) -> (r: Vec<u64>)
-        ensures forall|d: u64| r@.contains(d) <==> (self@.contains_key(d) && matches_spec(f, self@[d].1)) { unimplemented!() }
+        ensures forall|d: u64| #![trigger r@.contains(d)] #![trigger self@.contains_key(d)] r@.contains(d) <==> (self@.contains_key(d) && matches_spec(f, self@[d].1)) { unimplemented!() }
     // ---- writers (contracts = those proved by the backend_* units over DocumentStore@)
     #[verifier::external_body] pub fn delete(&mut self, d: u64) -> (r: Result<bool>)
         ensures r.is_err() ==> final(self)@ == old(self)@,
